@@ -7,7 +7,7 @@ import z3
 from .engine import (Engine, State, Frame, Signal, And, Or, Not, Implies, Ite, to_opt, EXC_PARENTS,
                      ACTION_KINDS)
 from .values import (Unsupported, EngineError, is_z3, is_boolish, is_intish, simp, Z, ZB, EnumV, Opt,
-                     SymList, EmptyList, SymSet, Obj, ActionV, ClassRef, FuncV, RangeV)
+                     SymList, EmptyList, SymSet, Obj, ActionV, ClassRef, FuncV, RangeV, ListLit)
 from .source import AnchorError, FuncInfo
 
 MUTATORS = {"append", "pop", "add", "remove"}
@@ -294,7 +294,24 @@ class Verifier(Engine):
                 raise Unsupported("del of non-name")
         return [(st, (Signal.NORMAL, None))]
 
+    def return_hints(self, s, st):
+        if "return" in self.contract.hints and not self.concrete and st.frames[-1].func is self.fi:
+            for hint in self.contract.hints["return"]:
+                if hint[0] == "use":
+                    try:
+                        self.use_lemma(hint[1], hint[2], st)
+                    except Unsupported:
+                        pass
+                    continue
+                label, expr = hint
+                try:
+                    cond = self.ev_spec(expr, st)
+                except Unsupported:
+                    continue          # mentions a local that does not exist on this path
+                self.oblige(st, cond, "hint:%s" % label, s, kind="hint", clause=expr)
+
     def st_Return(self, s, st):
+        self.return_hints(s, st)
         if s.value is not None and self.is_closure_call(s.value, st):
             outs = []
             for (y, sig) in self.inline_call(s.value, st):
@@ -378,9 +395,13 @@ class Verifier(Engine):
                 else:
                     outs.append((y, sig))
             return outs
+        self.last_min_witness = None
         val = self.ev(s.value, st)
         for t in s.targets:
             self.assign_target(t, val, st, s)
+            if isinstance(t, ast.Name) and self.last_min_witness is not None:
+                # x = min([...]): the index attaining the minimum is available to hints as x__argmin
+                st.assign(t.id + "__argmin", self.last_min_witness)
             if isinstance(t, ast.Name) and t.id in self.contract.hints and not self.concrete \
                     and (st.frames[-1].func is self.fi):
                 for hint in self.contract.hints[t.id]:
@@ -408,8 +429,17 @@ class Verifier(Engine):
 
     def use_lemma(self, name, arg_exprs, st):
         """Instantiate a separately proved arithmetic lemma at the current state."""
-        params, hyps, concl, _ = self.reg.arith_lemmas[name]
         vals = [self.ev(self.reg.parse_expr(a), self.spec_view(st)) for a in arg_exprs]
+        if name in self.reg.axiom_instances:       # instance of a definitional axiom
+            params, body = self.reg.axiom_instances[name]
+            inst = State()
+            inst.frames = [Frame(dict(zip(params, vals)), None, None)]
+            inst.heap = st.heap
+            inst.spec_mode = 1
+            inst.pc = list(st.pc)
+            st.assume(self.ev_spec(body, inst))
+            return
+        params, hyps, concl, _ = self.reg.arith_lemmas[name]
         inst = State()
         inst.frames = [Frame(dict(zip(params, vals)), None, None)]
         inst.heap = st.heap
@@ -425,6 +455,9 @@ class Verifier(Engine):
         return SymList(arrs, 0, comps, tup=(len(comps) > 1 or (len(ty) > 2 and ty[2])))
 
     def assign_target(self, t, val, st, node):
+        if isinstance(val, ListLit) and isinstance(t, ast.Name) and t.id in self.contract.locals and \
+                isinstance(self.contract.locals[t.id], tuple) and self.contract.locals[t.id][0] == "list":
+            val = self.to_symlist(val, st, node)      # a list the function goes on to mutate
         if isinstance(val, EmptyList):
             # an empty list literal takes the element type the sidecar declares for its variable
             if isinstance(t, ast.Name) and t.id in self.contract.locals and \
@@ -523,6 +556,9 @@ class Verifier(Engine):
                     pass
                 elif isinstance(sub, ast.Call):
                     f = sub.func
+                    if isinstance(f, ast.Attribute) and isinstance(f.value, ast.Subscript) and \
+                            isinstance(f.value.value, ast.Name):
+                        names.add(f.value.value.id)      # opt[m].append(x): a row of a list of objects
                     if isinstance(f, ast.Attribute) and f.attr in MUTATORS:
                         if isinstance(f.value, ast.Name):
                             names.add(f.value.id)
